@@ -8,7 +8,7 @@ os.makedirs(d, exist_ok=True)
 shutil.copy(os.path.join(wt, "patch.diff"), os.path.join(d, "patch.diff"))
 shutil.copy(os.path.join(wt, demo), os.path.join(d, os.path.basename(demo)))
 meta = {"property": prop, "breaks": what, "needs_to_manifest": needs, "demo": os.path.basename(demo), "demo_location_in_repo": demo,
-        "confirmed": "applied in a scratch worktree of /repo@eef6104: crate compiles, the crate's existing tests pass with the change, the demo fails with the change and passes without it",
+        "confirmed": "applied in a scratch worktree of /repo (commit named under ran): crate compiles, the crate's existing tests pass with the change, the demo fails with the change and passes without it",
         "ran": ran, "caught_by": ([] if caught == "-" else caught.split(",")),
         "apply": f"git -C /repo apply /verif/seeded/{name}/patch.diff ; ./check {prop} ; git -C /repo checkout -- ."}
 json.dump(meta, open(os.path.join(d, "meta.json"), "w"), indent=1)
